@@ -130,6 +130,42 @@ def gen_sax_pair(r):
     return ea, eb, cls
 
 
+def gen_wrap(r):
+    """a DOM to be built node by node and wrapped eagerly: any forest (adjacent / empty text nodes allowed), attributes in
+    name order (the order of a Xerces NamedNodeMap)"""
+    forest = [nd for nd in gen_forest(r, 0, top=True) if nd[0] in ("m", "p")]
+    forest.append(("e", r.choice(NAMES), [], gen_forest(r, r.range(1, 3))))
+    forest += [nd for nd in gen_forest(r, 0, top=True) if nd[0] in ("m", "p")]
+
+    def sort_attrs(f):
+        out = []
+        for nd in f:
+            if nd[0] == "e":
+                out.append(("e", nd[1], sorted(nd[2], key=lambda kv: kv[0].encode("utf-16-be")), sort_attrs(nd[3])))
+            else:
+                out.append(nd)
+        return out
+    ev = events_of(r, sort_attrs(forest), r.choice([0, 1, 2]), False, False)
+    return ev
+
+
+def gen_xdom(r):
+    """result events for FormatterToXercesDOM: like gen_fst, attributes in name order, sometimes white space at document level"""
+    ev, cls = gen_fst(r)
+    out = []
+    for e in ev:
+        if e.startswith("S:"):
+            f = e.split(":")
+            out.append(":".join(f[:2] + sorted(f[2:], key=lambda nv: bytes.fromhex(nv.split("=")[0].replace("-", "")))))
+        else:
+            out.append(e)
+    if r.chance(1, 4):
+        out.insert(0, "C:" + hx(rand_ws(r)))
+    if r.chance(1, 5):
+        out.append("C:" + hx(rand_ws(r)))
+    return out, cls.replace("fst", "xdom")
+
+
 def gen_fst(r):
     """result-event history for FormatterToSourceTree: like a SAX stream, some character pieces sent as CDATA (K) or
     raw characters (R).  returns (events, cls)"""
@@ -152,6 +188,40 @@ def gen_fst(r):
     if not any(x.startswith(("K:", "R:")) for x in out):
         kind = "plain"
     return out, "fst-" + kind
+
+
+def gen_out_utf8(r):
+    """print-writer history behind a real UTF-8 transcoder: well-formed UTF-16 text (pairs complete at every
+    synchronisation point) cut into writes at arbitrary unit positions, small buffers.  returns (line, expected bytes)"""
+    bufsize = r.choice([1, 2, 3, 4, 7, 512])
+    ops = ["e"]
+    expect = []
+    for _ in range(r.range(1, 5)):
+        txt = "".join(r.choice(["a", "\u00e9", "\u4e2d", "\U0001f600", "\U00010348", "z"]) for _ in range(r.range(1, 9)))
+        if bufsize == 512 and r.chance(1, 2):
+            txt = "a" * r.range(505, 515) + txt
+        units = txt.encode("utf-16-be")
+        us = [int.from_bytes(units[i:i + 2], "big") for i in range(0, len(units), 2)]
+        i = 0
+        while i < len(us):
+            n = r.choice([1, 1, 2, 3, 5, bufsize + 1])
+            piece = us[i:i + n]
+            i += n
+            if len(piece) == 1 and r.chance(1, 2):
+                ops.append("c:%04x" % piece[0])
+            else:
+                ops.append("w:" + "".join("%04x" % u for u in piece))
+        expect += list(txt.encode("utf-8"))
+        k = r.weighted([("f", 2), ("n", 2), ("none", 1)])
+        if k == "f":
+            ops.append("f")
+        elif k == "n":
+            bs = [r.range(0x41, 0x5A) for _ in range(r.range(0, 3))]
+            ops.append("n:" + ("".join("%02x" % b for b in bs) or "-"))
+            expect += bs
+        else:
+            ops.append("f")
+    return "out %d - %s %s" % (bufsize, r.choice(["0", "1"]), " ".join(ops)), expect
 
 
 def gen_out(r):
@@ -267,6 +337,16 @@ PROBES = [
     ("apply",
      '<ap><xsl:apply-templates select="//b | //a" mode="m"/></ap>',
      '<xsl:template match="*" mode="m"><x t="{name()}" gi="{generate-id(.) = generate-id((//*)[1])}"><xsl:apply-templates select="ancestor::*[1] | following-sibling::*[1]" mode="m2"/></x></xsl:template><xsl:template match="*" mode="m2"><y t="{name()}" id="{@id}"/></xsl:template>'),
+    ("id-fn",
+     # id() with forward references: only attributes *declared* ID count (IDREF/IDREFS must not)
+     '<idf><xsl:for-each select="id(\'n1 n3 n2 zz\') | id(//@ref) | id(//@refs)"><n t="{name()}" x="{@x}" pr="{count(preceding::*)}"/></xsl:for-each>'
+     '<c a="{count(id(\'r1\'))}" b="{count(id(\'n2\')/..)}" c="{name(id(//*[@ref][1]/@ref))}"/></idf>', ""),
+    ("doe-long",
+     # one run of 513..8192 characters written with disable-output-escaping after ordinary buffered text
+     '<dl>head&lt;<xsl:value-of disable-output-escaping="yes" select="$LONG"/>&amp;tail<xsl:value-of disable-output-escaping="yes" select="substring($LONG, 1, 700)"/>end</dl>',
+     '<xsl:variable name="L8" select="concat(\'@PIECE@\', //text()[1], \'0123456789abcdefghijklmnopqrstuvwxyzABCDEFGHIJKLMNOPQRSTUVWXYZ-+\')"/>'
+     '<xsl:variable name="L64" select="concat($L8,$L8,$L8,$L8,$L8,$L8,$L8,$L8)"/>'
+     '<xsl:variable name="LONG" select="substring(concat($L64,$L64,$L64,$L64,$L64,$L64,$L64,$L64,$L64,$L64,$L64,$L64,$L64,$L64,$L64,$L64), 1, @LEN@)"/>'),
     ("id-lang",
      '<il><xsl:for-each select="//*[lang(\'en\')]"><n t="{name()}"/></xsl:for-each></il>', ""),
 ]
@@ -285,7 +365,7 @@ OUTPUTS = [
 
 def gen_case(r, i, absdir):
     """returns dict(xml, xsl, mode, cls, probes).  absdir: directory the files will be written to (for the PI href)"""
-    cls = r.weighted([("order", 12), ("cdata-entity", 3), ("strip", 2), ("error", 1), ("big", 2)])
+    cls = r.weighted([("order", 12), ("cdata-entity", 3), ("strip", 2), ("error", 1), ("big", 2), ("dtd-id", 3)])
     budget = [r.range(4, 14) if cls != "big" else r.range(40, 90)]
     body = gen_doc_tree(r, r.range(2, 4), budget)
     rootattrs = ' xmlns:p="urn:p" id="i0"'
@@ -296,12 +376,36 @@ def gen_case(r, i, absdir):
     if cls == "cdata-entity":
         doctype = '<!DOCTYPE r [<!ENTITY ent "entity&#32;text"><!ENTITY e2 "<c id=\'i9\'>from entity</c>">]>\n'
         body = body + "&ent;<![CDATA[cd<at>a]]>tail&e2;<a><![CDATA[]]>x<![CDATA[y]]></a>"
+    if cls == "dtd-id":
+        # DTD-declared ID / IDREF / IDREFS attributes with forward references; no entities, no CDATA: may be given as a DOM
+        doctype = ('<!DOCTYPE r [<!ATTLIST n x ID #IMPLIED ref IDREF #IMPLIED refs IDREFS #IMPLIED>'
+                   '<!ATTLIST r x ID #IMPLIED>]>\n')
+        ids = r.shuffle(["n1", "n2", "n3", "n4"])
+        body = ('<n ref="%s" refs="%s %s">fwd</n>' % (ids[0], ids[1], ids[2]) + body +
+                "".join('<n x="%s"%s>t%s<n x="in%s"/></n>' % (i, (' ref="%s"' % r.choice(ids)) if r.chance(1, 2) else "", i, i) for i in ids[:r.range(2, 4)]) +
+                '<n refs="in%s n9"/>' % ids[0])
+        rootattrs += ' x="r1"'
     misc = r.choice(["", "<!--top-->\n", "<?toppi x?>\n"])
     pi = '<?xml-stylesheet type="text/xsl" href="file://%s/style.xsl"?>\n' % absdir
     xml = prolog + doctype + misc + pi + "<r%s>%s</r>" % (rootattrs, body) + r.choice(["", "\n", "\n<!--after-->"])
     mode, outdecl = r.choice(OUTPUTS)
     nprobes = r.range(1, 4) if cls != "big" else r.range(3, 6)
     probes = r.shuffle(PROBES)[:nprobes]
+    byname = dict((p[0], p) for p in PROBES)
+    if cls == "dtd-id":
+        # a Xerces DOM exposes the DOCTYPE as a child node of the document (known finding C05-dom-doctype-node, exercised by its
+        # own corpus case): keep node()-counting probes out of these cases so that any *other* difference still alarms
+        probes = [p for p in probes if p[0] not in ("preceding", "last-first", "text-nodes")] or [byname["union-order"]]
+    if cls == "dtd-id" and "id-fn" not in [p[0] for p in probes]:
+        probes.append(byname["id-fn"])
+    if mode in ("xml16", "xml") and r.chance(1, 3) and "doe-long" not in [p[0] for p in probes]:
+        probes.append(byname["doe-long"])      # long raw runs, most interesting with UTF-16 (wide writes through the stream buffer)
+    notree = "doe-long" in [p[0] for p in probes]
+    if notree:
+        # raw output is a serialisation feature: tree targets legitimately differ (<?Xalan raw?> marker); bytes only
+        probes = [p for p in probes if p[0] != "copy"]
+    doe_len = r.choice([513, 600, 1025, 3000, 8192, r.range(513, 8192)])
+    probes = [(p[0], p[1], p[2].replace("@LEN@", str(doe_len)).replace("@PIECE@", r.choice(["ab", "xy ", "\u00e9\u4e2d"]))) for p in probes]
     if mode == "bytes":
         # html/text/indent results are compared as raw bytes across tree implementations: keep attribute order out of them
         probes = [p for p in probes if p[0] != "copy"] or [PROBES[0]]
@@ -310,7 +414,7 @@ def gen_case(r, i, absdir):
         decls += '<xsl:strip-space elements="*"/><xsl:preserve-space elements="b"/>'
     inner = "".join(p[1] for p in probes)
     params = None
-    if r.chance(1, 3):
+    if r.chance(1, 3) and cls != "dtd-id":
         # top-level parameters set through XalanTransformer::setStylesheetParam / XalanSetStylesheetParam / Xalan -p
         params = [("P", "'%s'" % r.choice(["abc", "x y", "q-1"])), ("N", str(r.range(2, 40)))]
         if r.chance(1, 2):
@@ -326,5 +430,5 @@ def gen_case(r, i, absdir):
     xsl = ('<?xml version="1.0"?>\n<xsl:stylesheet version="1.0" xmlns:xsl="http://www.w3.org/1999/XSL/Transform" '
            'xmlns:p="urn:p" xmlns:q="urn:q" exclude-result-prefixes="p q">\n%s%s\n<xsl:template match="/">%s</xsl:template>\n</xsl:stylesheet>\n'
            % (outdecl, decls, root))
-    return {"xml": xml, "xsl": xsl, "mode": mode, "cls": cls, "probes": [p[0] for p in probes] + (["params"] if params else []), "nodom": cls == "cdata-entity", "params": params,
+    return {"xml": xml, "xsl": xsl, "mode": mode, "cls": cls, "probes": [p[0] for p in probes] + (["params"] if params else []), "nodom": cls == "cdata-entity", "params": params, "notree": notree,
             "out": (outdecl.split(" ", 1)[1].rstrip("/>").replace(" ", ",").replace('"', "") if outdecl else "-")}
